@@ -339,6 +339,36 @@ def typed(v, tag):
     return SCALAR_TYPES[tag](v)
 
 
+IDX_TYPES = ['int', 'np.int8', 'np.int16', 'np.int32', 'np.int64', 'np.uint8', 'np.uint16', 'np.uint32', 'np.uint64',
+             'np.intp', '0d:int64', '0d:uint8', 'bigint']
+
+
+def idx_typed(k, t):
+    """the index value `k` as the Python object of type `t` (`bigint`: an int object built at run time —
+    above 256 it is not the interpreter's cached small int, so `is` comparisons with it fail)"""
+    k = int(k)
+    if t in (None, 'int'):
+        return k
+    if t == 'bigint':
+        return int(str(k))
+    if t.startswith('0d:'):
+        return np.array(k, dtype=getattr(np, t[3:]))
+    return getattr(np, t[3:])(k)
+
+
+def idx_fits(k, t):
+    if t in (None, 'int', 'bigint'):
+        return True
+    name = t[3:]
+    return int(k) <= np.iinfo(getattr(np, name)).max
+
+
+def idx(case, k):
+    """receiver index `k` in the type the scenario asks for"""
+    t = (case.get('present') or {}).get('idx') or case.get('idx') or 'int'
+    return idx_typed(k, t if idx_fits(k, t) else 'int')
+
+
 def noise_arg(case):
     return typed(case['noise'], case.get('ntype'))
 
@@ -434,10 +464,10 @@ def eval_channel(ch, case, jp):
     pe = pe_args(case)
     if jp:
         s = call_guard(lambda: ch.calc_JP_SINR(Fs, Us, *pe))
-        q = [ch.calc_JP_Q(k, Fs, *pe) for k in range(case['K'])]
+        q = [ch.calc_JP_Q(idx(case, k), Fs, *pe) for k in range(case['K'])]
     else:
         s = call_guard(lambda: ch.calc_SINR(Fs, Us, *pe))
-        q = [ch.calc_Q(k, Fs, *pe) for k in range(case['K'])]
+        q = [ch.calc_Q(idx(case, k), Fs, *pe) for k in range(case['K'])]
     if s[0] == 'ok':
         s = ('ok', [[float(x) for x in r] for r in s[1]])
     return s, q
@@ -535,7 +565,7 @@ def eval_solver(sol, ch2, case, synced=True):
         out['sinr'] = ('ok', [[float(x) for x in r] for r in s[1]])
         out['dB'] = [[float(x) for x in r] for r in sol.calc_SINR_in_dB()]
         out['cap'] = float(sol.calc_sum_capacity())
-    out['Q'] = [sol.calc_Q(k) for k in range(K)]
+    out['Q'] = [sol.calc_Q(idx(case, k)) for k in range(K)]
     # the channel object evaluated with the solver's precoders and filters (default pe)
     out['chan'] = call_guard(lambda: ch2.calc_SINR(obj(full_F), obj(w)))
     if out['chan'][0] == 'ok':
@@ -610,14 +640,14 @@ def fp_streams(case, variant, F, U, pe, noise):
     return out
 
 
-def fp_Q(case, variant, F, pe, noise):
+def fp_Q(case, variant, F, pe, noise, only=None):
     """sum of the interfering links' covariances (+ external interference + noise),
-    built from outer products of the received stream vectors"""
+    built from outer products of the received stream vectors (`only`: just these receivers)"""
     K = case['K']
     b = ref_blocks(case)
     Nr = case['Nr']
     out = []
-    for k in range(K):
+    for k in (range(K) if only is None else only):
         Q = np.zeros((Nr[k], Nr[k]), dtype=complex)
         for j in range(K):
             if j == k:
@@ -648,6 +678,9 @@ def variant_tag(case):
         tag += ':noise-' + case['ntype']
     if pr.get('layout'):
         tag += ':R2-' + pr['layout']
+    it = pr.get('idx') or case.get('idx')
+    if it not in (None, 'int'):
+        tag += ':idx-' + it
     if case.get('rclass'):
         tag += ':' + case['rclass']
     return tag
@@ -782,13 +815,148 @@ def judge_solver(case, out):
     return None
 
 
+CAP_SHAPES = ['1d', 'scalar', 'npscalar', '0d', '2d', 'column', 'row', '3d', 'list', 'tuple', 'list-of-lists',
+              'fortran', 'strided', 'reversed', 'empty', 'empty-2d', 'int', 'float32', 'per-user-arrays',
+              'list-of-arrays']
+
+
+def cap_arg(case):
+    """the argument of calc_shannon_sum_capacity in the shape / container the case asks for;
+    `case['sinrs']` is a list of rows (the entries, row by row)"""
+    rows = [[float(x) for x in r] for r in case['sinrs']]
+    flat = [x for r in rows for x in r]
+    sh = case.get('shape', '1d')
+    rect = rows and all(len(r) == len(rows[0]) for r in rows)
+    a2 = np.array(rows, dtype=float) if rect else None
+    if sh == 'scalar':
+        return float(flat[0])
+    if sh == 'npscalar':
+        return np.float64(flat[0])
+    if sh == '0d':
+        return np.array(flat[0])
+    if sh == '2d':
+        return a2
+    if sh == 'column':
+        return np.array(flat).reshape(-1, 1)
+    if sh == 'row':
+        return np.array(flat).reshape(1, -1)
+    if sh == '3d':
+        return a2.reshape(a2.shape[0], 1, a2.shape[1])
+    if sh == 'list':
+        return list(flat)
+    if sh == 'tuple':
+        return tuple(flat)
+    if sh == 'list-of-lists':
+        return [list(r) for r in rows]
+    if sh == 'fortran':
+        return np.asfortranarray(a2)
+    if sh == 'strided':
+        return np.repeat(a2, 2, axis=1)[:, ::2]
+    if sh == 'reversed':
+        return a2[::-1, ::-1][::-1, ::-1]
+    if sh == 'empty':
+        return np.array([], dtype=float)
+    if sh == 'empty-2d':
+        return np.zeros((0, 3))
+    if sh == 'int':
+        return np.array(rows, dtype=np.int64)
+    if sh == 'float32':
+        return np.array(rows, dtype=np.float32)
+    if sh == 'per-user-arrays':         # what calc_SINR returns: a 1-D array of 1-D arrays
+        return obj([np.array(r) for r in rows])
+    if sh == 'list-of-arrays':
+        return [np.array(r) for r in rows]
+    return np.array(flat)
+
+
+def cap_entries(case):
+    sh = case.get('shape', '1d')
+    if sh in ('scalar', 'npscalar', '0d'):
+        return [float(case['sinrs'][0][0])]
+    if sh in ('empty', 'empty-2d'):
+        return []
+    return [float(x) for r in case['sinrs'] for x in r]
+
+
 def o_capacity(case):
+    """calc_shannon_sum_capacity of an argument of any shape: ONE number, sum of log2(1+x) over all entries"""
     _, _, misc = _impl()
-    xs = [float(x) for x in case['sinrs']]
-    got = float(misc.calc_shannon_sum_capacity(np.array(xs)))
-    ref = math.fsum(math.log2(1.0 + x) for x in xs)
-    if not core.close(got, ref, rtol=1e-12, atol=1e-12):
-        return ('capacity', 'reported %.17g, sum log2(1+x) %.17g' % (got, ref))
+    if isinstance(case['sinrs'], list) and case['sinrs'] and not isinstance(case['sinrs'][0], list):
+        case = dict(case, sinrs=[case['sinrs']])        # older replay files: a flat list
+    sh = case.get('shape', '1d')
+    with np.errstate(all='ignore'):
+        got = misc.calc_shannon_sum_capacity(cap_arg(case))
+    if np.ndim(got) != 0:
+        return ('capacity:not-a-scalar:' + sh, 'result has shape %s' % (np.shape(got),))
+    ref = math.fsum(math.log2(1.0 + x) for x in cap_entries(case))
+    if not core.close(float(got), ref, rtol=1e-12, atol=1e-12):
+        return ('capacity:' + sh, 'reported %.17g, sum log2(1+x) over all entries %.17g' % (float(got), ref))
+    return None
+
+
+INDEX_METHODS = ['calc_Q', 'calc_JP_Q', 'get_Hkl', 'get_Hk', 'get_Hk_without_ext_int', 'solver.calc_Q',
+                 'solver.calc_remaining_interference_percentage']
+
+
+def o_index(case):
+    """R1 for INDEX arguments: every receiver / transmitter index argument of every public method, given as
+    Python int, numpy integer of every width and signedness, np.intp, 0-d integer array and a run-time-built
+    int (not the cached small-int object above 256), designates the user with that VALUE: same result as for
+    the plain Python int, and Q = sum of the interfering links' covariances for exactly that receiver"""
+    _, ia, _ = _impl()
+    tag = 'extint' if case['ext'] else 'plain'
+    K = case['K']
+    with np.errstate(all='ignore'):
+        ch = build_channel(case)
+        _, F, FJ, U = presented(case)
+        Fs, FJs = seq(case, F), seq(case, FJ)
+        pe = pe_args(case)
+        sol = None
+        if case.get('solver'):
+            sol = ia.IASolverBaseClass(ch)
+            sync_solver(sol, case)
+        ks = case.get('ks') or list(range(K))
+        Fc = [np.asarray(x, dtype=complex) for x in arrays(case)[1]]
+        FJc = [np.asarray(x, dtype=complex) for x in arrays(case)[2]]
+        qref = dict(zip(ks, fp_Q(case, 'ic', Fc, pe_value(case), noise_value(case), only=ks)))
+        qjref = dict(zip(ks, fp_Q(case, 'jp', FJc, pe_value(case), noise_value(case), only=ks)))
+        for k in ks:
+            l = (k + 1) % K
+            calls = {'calc_Q': lambda a, b: ch.calc_Q(a, Fs, *pe),
+                     'calc_JP_Q': lambda a, b: ch.calc_JP_Q(a, FJs, *pe),
+                     'get_Hkl': lambda a, b: ch.get_Hkl(a, b),
+                     'get_Hk': lambda a, b: ch.get_Hk(a)}
+            if case['ext']:
+                calls['get_Hk_without_ext_int'] = lambda a, b: ch.get_Hk_without_ext_int(a)
+            if sol is not None:
+                calls['solver.calc_Q'] = lambda a, b: sol.calc_Q(a)
+                calls['solver.calc_remaining_interference_percentage'] = \
+                    lambda a, b: sol.calc_remaining_interference_percentage(a)
+            plain = {}
+            for name, fn in calls.items():
+                try:
+                    plain[name] = np.array(fn(k, l))
+                except np.linalg.LinAlgError:
+                    plain[name] = None
+            if not mat_close(plain['calc_Q'], qref[k]):
+                return ('R1:index:calc_Q:not-sum-of-links:int:' + tag, 'k = %d' % k)
+            if not mat_close(plain['calc_JP_Q'], qjref[k]):
+                return ('R1:index:calc_JP_Q:not-sum-of-links:int:' + tag, 'k = %d' % k)
+            for t in IDX_TYPES[1:]:
+                if not (idx_fits(k, t) and idx_fits(l, t)):
+                    continue
+                for name, fn in calls.items():
+                    if plain[name] is None:
+                        continue
+                    try:
+                        r = np.array(fn(idx_typed(k, t), idx_typed(l, t)))
+                    except Exception as e:
+                        return ('R1:index:%s:exception:%s:%s' % (name, t, tag),
+                                'k = %d as %s: %s' % (k, t, repr(e)[:200]))
+                    if r.shape != plain[name].shape or not (
+                            np.array_equal(r, plain[name], equal_nan=r.dtype.kind in 'fc') or mat_close(r, plain[name], 1e-12)):
+                        return ('R1:index:%s:differs-from-python-int:%s:%s' % (name, t, tag),
+                                'k = %d as %s' % (k, t))
     return None
 
 
@@ -1156,8 +1324,8 @@ def o_immutable(case):
                 for k in range(K):
                     outs['%s.JP_SINR[%d]' % (label, k)] = sj[1][k]
             for k in range(K):
-                outs['%s.Q[%d]' % (label, k)] = ch.calc_Q(k, seq(case, F), *pe)
-                outs['%s.JP_Q[%d]' % (label, k)] = ch.calc_JP_Q(k, seq(case, FJ), *pe)
+                outs['%s.Q[%d]' % (label, k)] = ch.calc_Q(idx(case, k), seq(case, F), *pe)
+                outs['%s.JP_Q[%d]' % (label, k)] = ch.calc_JP_Q(idx(case, k), seq(case, FJ), *pe)
             if ext:
                 for k, r in enumerate(ch.calc_cov_matrix_extint_plus_noise(*pe)):
                     outs['%s.Re[%d]' % (label, k)] = r
@@ -1179,7 +1347,7 @@ def o_immutable(case):
                     for k in range(K):
                         outs['solver.SINR[%d]' % k] = r[1][k]
                 for k in range(K):
-                    outs['solver.Q[%d]' % k] = sol.calc_Q(k)
+                    outs['solver.Q[%d]' % k] = sol.calc_Q(idx(case, k))
                     outs['solver.full_F[%d]' % k] = sol.full_F[k]
             except np.linalg.LinAlgError:
                 pass
@@ -1246,6 +1414,7 @@ def o_immutable(case):
 ORACLES = {
     'session': o_session,
     'immutability': o_immutable,
+    'index-arguments': o_index,
     'calc_SINR': o_calc_SINR,
     'calc_JP_SINR': o_calc_JP_SINR,
     'calc_SINR.rescaled-filter': o_scale,
@@ -1259,7 +1428,8 @@ def run_oracle(ctx, call, case, key=None, nontrivial=True):
     try:
         r = ORACLES[call](case)
     except Exception as e:  # an exception where the property promises a value
-        r = ('exception:%s:%s' % (type(e).__name__, variant_tag(case) if 'ext' in case else '-'), repr(e)[:300])
+        r = ('exception:%s:%s' % (type(e).__name__, variant_tag(case) if 'ext' in case else case.get('shape', '-')),
+             repr(e)[:300])
     if r is not None:
         ctx.fail(call, r[0], case, r[1])
         ctx.branch('oracle-fail:' + call)
@@ -1368,7 +1538,7 @@ class Gen:
                 'F': [enc(f) for f in F], 'FJ': [enc(f) for f in FJ], 'U': [enc(u) for u in U],
                 'P': P, 'scale': scale, 'dtype': rng.choice(['int', 'float', 'complex']) if kind == 'rint' else 'complex',
                 'as_list': rng.chance(0.2), 'set_W': rng.chance(0.3),
-                'ntype': 'float', 'petype': 'float', 'ptype': 'float'}
+                'ntype': 'float', 'petype': 'float', 'ptype': 'float', 'idx': rng.choice(IDX_TYPES)}
         if retype:
             self.retype(case)
         return case
@@ -1525,6 +1695,22 @@ class Gen:
         c['rclass'] = 'R6'
         return c
 
+    def bigk_case(self, ext=None):
+        """more than 256 single-antenna users: receiver indices above 256 (Python ints that are not the
+        interpreter's cached small-int objects, numpy integers that need 16 bits)"""
+        rng = self.rng
+        K = rng.randint(258, 262)
+        c = self.case(kind='gauss', ext=rng.chance(0.5) if ext is None else ext, K=K,
+                      dims=([1] * K, [1] * K, [1] * K), NtE=[1], retype=False)
+        c['pl'] = c['ple'] = None
+        c['noise'] = 0.5
+        c['P'] = None
+        c['ks'] = [0, 255, 256, 257, K - 1]
+        c['idx'] = 'bigint'
+        c['solver'] = False
+        c['rclass'] = 'R1'
+        return c
+
     def session(self, n_steps=None, ext=None):
         """the life of one channel object (+ one solver): 2..6 scenarios reached from one another through
         the public API — new realisation (init_from_channel_matrix / randomize, same layout, new antenna
@@ -1656,6 +1842,7 @@ def branches_of(ctx, case):
     ctx.branch('kind:' + case['kind'])
     ctx.branch('dtype:' + case.get('dtype', 'complex'))
     pr = case.get('present') or {}
+    ctx.branch('R1:idx-' + (pr.get('idx') or case.get('idx') or 'int'))
     if pr.get('arr'):
         ctx.branch('R1:arr-' + pr['arr'])
     if pr.get('layout'):
@@ -1876,21 +2063,93 @@ def corr_sessions(ctx, sessions):
     settle(ctx, jobs, lines, prefix='session:')
 
 
+def corr_index(ctx, cases):
+    """index arguments against the model: `calc_Q(k)` / `calc_JP_Q(k)` for single receivers whose index is
+    handed over in every type (and one index beyond the last user: IndexError), the model being given the VALUE"""
+    drv = core.Driver(DRIVER)
+    jobs, lines = [], []
+    n = 0
+    for case in cases:
+        K = case['K']
+        try:
+            with np.errstate(all='ignore'):
+                ch = build_channel(case)
+                _, F, FJ, _ = presented(case)
+                pe = pe_args(case)
+                for k in (case.get('ks') or list(range(K))) + [K]:
+                    for jp in (False, True):
+                        fits = [t for t in IDX_TYPES if idx_fits(k, t)]
+                        t = fits[n % len(fits)]
+                        n += 1
+                        try:
+                            fn = ch.calc_JP_Q if jp else ch.calc_Q
+                            got = ('ok', np.array(fn(idx_typed(k, t), seq(case, FJ if jp else F), *pe)))
+                        except IndexError:
+                            got = ('error', 'IndexError')
+                        jobs.append((case, k, jp, t, got))
+                        lines.append('q' + chan_line(case, jp)[4:] + ' k=%d' % k)
+                        ctx.branch('index:' + t)
+                        ctx.branch('index:beyond-last-user' if k == K else 'index:k>256' if k > 256 else 'index:k<=256')
+        except Exception as e:      # the oracle reports it with the input; here the tie is broken
+            ctx.corr('index-arguments:' + variant_tag(case), {'K': K}, 'a result', 'exception ' + type(e).__name__)
+    out = drv.ask(lines)
+    for (case, k, jp, t, got), reply in zip(jobs, out):
+        name = '%s(index as %s):%s' % ('calc_JP_Q' if jp else 'calc_Q', t, 'extint' if case['ext'] else 'plain')
+        if reply.startswith('error:') or got[0] == 'error':
+            a = 'error:' + got[1] if got[0] == 'error' else 'ok'
+            b = reply if reply.startswith('error:') else 'ok'
+            ctx.corr(name, {'K': case['K'], 'k': k}, a, b, key=(name, case['K'], k, jp, len(lines)))
+        else:
+            m = parse_c(reply, (case['Nr'][k], case['Nr'][k]))
+            ctx.corr(name, {'K': case['K'], 'k': k}, 'agree', 'agree' if mat_close(got[1], m) else
+                     'max deviation %.3e' % float(np.abs(got[1] - m).max()), key=(name, case['K'], k, jp, repr(m[:1])))
+
+
+def gen_cap_cases(rng, n):
+    out = []
+    for i in range(n):
+        sh = CAP_SHAPES[i % len(CAP_SHAPES)]
+        if sh in ('per-user-arrays', 'list-of-arrays'):
+            rows = [[10.0 ** rng.uniform(-4, 4) for _ in range(rng.randint(0 if sh == 'list-of-arrays' else 1, 4))]
+                    for _ in range(rng.randint(1, 4))]
+            if sh == 'per-user-arrays' and len(set(len(r) for r in rows)) == 1 and len(rows) > 1:
+                rows[0] = rows[0] + [1.0]       # keep it ragged (a rectangular one is an ordinary 2-D array)
+        else:
+            nr, nc = rng.randint(1, 4), rng.randint(1, 4)
+            rows = [[10.0 ** rng.uniform(-4, 4) for _ in range(nc)] for _ in range(nr)]
+        if sh == 'int':
+            rows = [[float(rng.randint(0, 9)) for _ in r] for r in rows]
+        if sh == 'float32':
+            rows = [[float(np.float32(x)) for x in r] for r in rows]
+        if i == 0:
+            rows = [[0.0, 1.0, 3.0]]
+        out.append({'sinrs': rows, 'shape': sh})
+    return out
+
+
 def corr_capacity(ctx, rng, n):
     _, _, misc = _impl()
     drv = core.Driver(DRIVER)
-    cases = []
-    for i in range(n):
-        xs = [10.0 ** rng.uniform(-4, 4) for _ in range(rng.randint(0, 12))]
-        if i == 0:
-            xs = [0.0, 1.0, 3.0]
-        cases.append(xs)
-    out = drv.ask(['cap ' + fline(xs) for xs in cases])
-    for xs, o in zip(cases, out):
-        got = float(misc.calc_shannon_sum_capacity(np.array(xs)))
-        ctx.corr('calc_shannon_sum_capacity', {'sinrs': xs}, 'agree',
-                 'agree' if core.close(got, core.s2f(o), rtol=1e-12, atol=1e-12) else 'impl %r model %r' % (got, core.s2f(o)))
+    cases = gen_cap_cases(rng, n)
+    lines = []
+    for c in cases:
+        rows = [cap_entries(c)] if c['shape'] in ('scalar', 'npscalar', '0d', 'empty', 'empty-2d') else c['sinrs']
+        lines.append('cap2 ' + ';'.join(fline(r) for r in rows))
+    out = drv.ask(lines)
+    for c, o in zip(cases, out):
         ctx.branch('capacity')
+        ctx.branch('capacity:' + c['shape'])
+        try:
+            with np.errstate(all='ignore'):
+                got = misc.calc_shannon_sum_capacity(cap_arg(c))
+            if np.ndim(got) != 0:
+                res = 'result of shape %s' % (np.shape(got),)
+            else:
+                res = 'agree' if core.close(float(got), core.s2f(o), rtol=1e-12, atol=1e-12) else \
+                    'impl %r model %r' % (float(got), core.s2f(o))
+        except Exception as e:
+            res = 'exception ' + type(e).__name__
+        ctx.corr('calc_shannon_sum_capacity:' + c['shape'], c, 'agree', res)
 
 
 # ------------------------------------------------------------------ corpus
@@ -1991,7 +2250,7 @@ def gen_sessions(ctx, n):
     return [g.session() for _ in range(n)]
 
 
-def oracles(ctx, cases, sessions=()):
+def oracles(ctx, cases, sessions=(), bigk=()):
     for i, sess in enumerate(sessions):
         run_oracle(ctx, 'session', sess, key=('session', i, sess['ext'], sess['kind'], len(sess['steps'])))
         for r in ('R3', 'R4', 'R7'):
@@ -2009,10 +2268,13 @@ def oracles(ctx, cases, sessions=()):
         if i % 3 == 0 or case.get('rclass'):
             run_oracle(ctx, 'immutability', case, key=key)
             ctx.branch('oracle:R3')
-    rng = ctx.rng.fork('cap')
-    for _ in range(20):
-        run_oracle(ctx, 'calc_shannon_sum_capacity',
-                   {'sinrs': [10.0 ** rng.uniform(-4, 4) for _ in range(rng.randint(0, 10))]})
+    for c in gen_cap_cases(ctx.rng.fork('cap'), 3 * len(CAP_SHAPES)):
+        run_oracle(ctx, 'calc_shannon_sum_capacity', c)
+    for i, case in enumerate(list(bigk) + [c for j, c in enumerate(cases) if j % 7 == 0]):
+        run_oracle(ctx, 'index-arguments', case, key=case_key(case, i) + ('index',))
+        ctx.branch('oracle:index-arguments')
+        if case.get('ks'):
+            ctx.branch('oracle:index>256')
 
 
 def check(ctx):
@@ -2052,24 +2314,30 @@ def check(ctx):
                             ['oracle:R%d' % i for i in range(1, 8)] + \
                             ['R1:arr-' + a for a in ('int8', 'uint8', 'int16', 'uint16', 'int32', 'int64', 'float32',
                                                      'complex64')] + ['R2:layout-' + l for l in LAYOUTS] + \
-                            ['R4:' + r for r in REJECTS_CHANNEL + REJECTS_EXT + REJECTS_SOLVER] + ['noise-type:' + t for t in NUMTYPES] + \
+                            ['R4:' + r for r in REJECTS_CHANNEL + REJECTS_EXT + REJECTS_SOLVER] + \
+                            ['R1:idx-' + t for t in IDX_TYPES] + ['index:' + t for t in IDX_TYPES] + \
+                            ['index:k>256', 'index:k<=256', 'index:beyond-last-user', 'oracle:index-arguments',
+                             'oracle:index>256'] + ['capacity:' + sh for sh in CAP_SHAPES] + ['noise-type:' + t for t in NUMTYPES] + \
                             ['pe-type:' + t for t in NUMTYPES] + \
                             ['P-type:' + t for t in ('float', 'int', 'np.int32', 'np.float32', 'list', 'scalar:int',
                                                      'scalar:float', 'scalar:np.float32', 'scalar:np.int64')]
     cases = corpus_cases() + gen_cases(ctx, 400 if quick else 4000) + gen_rcases(ctx, 40 if quick else 600)
+    gb = Gen(ctx.rng.fork('bigk'), ctx.tier)
+    bigk = [gb.bigk_case(ext=bool(i % 2)) for i in range(2 if quick else 6)]
     if not quick:
         cases += layout_sweep(ctx)
     sessions = corpus_sessions() + gen_sessions(ctx, 160 if quick else 1500)
     try:
         correspondence(ctx, cases)
         corr_sessions(ctx, sessions)
+        corr_index(ctx, bigk + [c for i, c in enumerate(cases) if i % 9 == 0])
         corr_capacity(ctx, ctx.rng.fork('capc'), 40 if quick else 400)
     except core.Infra as e:
         if not ctx.broken:
             raise
         ctx.notes.append('correspondence skipped: %s' % e)
         ctx.required_branches = []
-    oracles(ctx, cases, sessions)
+    oracles(ctx, cases, sessions, bigk)
 
 
 def search(ctx):
